@@ -179,6 +179,9 @@ def walk_leaves(nodes, out):
             walk_leaves(n['body'], out)
         elif k == 'verb':
             pass
+        elif k == 'tdef':
+            out.append((n, 'name'))
+            walk_leaves(n['body'], out)
         elif k == 'def':
             out.append((n, 'name'))
             if is_hole(n['inner'][1]):
@@ -287,6 +290,8 @@ def ser(n):
         return '\\begin{' + n['name'] + '}' + ''.join(map(ser, n['body'])) + '\\end{' + n['name'] + '}'
     if k == 'verb':
         return '\\begin{' + n['name'] + '}' + n['s'] + '\\end{' + n['name'] + '}'
+    if k == 'tdef':
+        return '\\def\\' + n['name'] + '{' + ''.join(map(ser, n['body'])) + '}'
     if k == 'def':
         kind, v = n['inner']
         if kind.startswith('nested-'):
@@ -333,6 +338,8 @@ def exp(n):
         return ('env', n['name'], (), merge([exp(b) for b in n['body']]))
     if k == 'verb':
         return ('env', n['name'], (), merge([n['s']]))
+    if k == 'tdef':
+        return ('cmd', 'def', (('cmd', n['name'], (), ()), ('brace', merge([exp(b) for b in n['body']]))), ())
     if k == 'def':
         args = [('brace', (('cmd', n['name'], (), ()),))]
         if n['nargs']:
